@@ -15,7 +15,7 @@ func init() {
 		ID:      "C06",
 		Level:   "exploration",
 		Workers: 16,
-		Rule: "scenarios as in C05 plus hostile-but-legal traffic of a correct client's repertoire: empty pushes, replays of old requests (re-push of acknowledged operations), batches of 1-200 operations, long offline periods, stale CheckPoint.Sseq; after EVERY request the in-memory MongoDB is read directly and checked per datatype: sseq = 1..n, _id = duid:sseq, n = recorded end of log, per client the stored seqs are 1,2,3,... in sseq order, every stored operation was offered by a client at the boundary, recorded checkpoints are covered by what is stored, and the response checkpoint equals the stored one; " +
+		Rule: "scenarios as in C05 plus hostile-but-legal traffic of a correct client's repertoire: empty pushes, replays of old requests (re-push of acknowledged operations), batches of 1-200 operations, long offline periods, stale CheckPoint.Sseq, and read-only traffic (pull-only syncs carrying the read-only bit under a writer's id, with and without anything to pull, and a dedicated reader that subscribes and keeps syncing read-only; its state must equal the replay of the log up to its checkpoint); after EVERY request the in-memory MongoDB is read directly and checked per datatype: sseq = 1..n, _id = duid:sseq, n = recorded end of log, per client the stored seqs are 1,2,3,... in sseq order, every stored operation was offered by a client at the boundary, recorded checkpoints are covered by what is stored, and the response checkpoint equals the stored one; " +
 			"non-trivial = at least one request re-offered an acknowledged operation and at least one request pushed while another client's operations were pending for the pusher; distinct = hash of the step script",
 		Assumptions: []string{
 			"MongoDB is the in-memory stand-in (fakemongo); its documents are decoded with the server's own schema types",
@@ -91,6 +91,8 @@ func runC06(c *core.Case) *core.Result {
 	r := c.Rng
 	old := map[*bed.Client][]*model.PushPullMessage{}
 	reoffered, pushedWithPending := false, false
+	var reader *bed.Client
+	readerDT := map[int]*bed.DT{}
 	check := func(ex *bed.Exchange) (string, string) {
 		if !w.idle() {
 			return "INCONCLUSIVE", "server side did not become idle"
@@ -106,7 +108,7 @@ func runC06(c *core.Case) *core.Result {
 	for i := 0; i < steps; i++ {
 		ci := r.Intn(len(w.cls))
 		cl := w.cls[ci]
-		switch k := r.Intn(20); {
+		switch k := r.Intn(23); {
 		case k < 2 || len(cl.DTs) == 0:
 			ki := r.Intn(len(w.keys))
 			if s.opened[[2]int{ci, ki}] == nil {
@@ -201,6 +203,109 @@ func runC06(c *core.Case) *core.Result {
 			c.Count("stale_checkpoint_requests", 1)
 			if sig, msg := check(nil); sig != "" {
 				return verdict(c, "stale-cp:", sig, msg)
+			}
+		case k >= 20:
+			// read-only traffic (the read-only option bit of the protocol): (0) a pull-only sync
+			// of a subscribed client's id with the read-only bit right after its normal sync
+			// (nothing to pull), (1) the same without the preceding sync, (2) a dedicated reader
+			// that subscribes read-only and keeps syncing read-only, its responses applied.
+			variant := r.Intn(3)
+			if variant == 2 {
+				if reader == nil {
+					reader = w.b.NewClient("colA", "reader")
+				}
+				ki := r.Intn(len(w.keys))
+				kk := w.keys[ki]
+				if readerDT[ki] == nil && w.b.Datatype(w.colNum, kk.key) != nil {
+					c.Step("reader opens %s %s (subscribe, read-only)", kk.typ, kk.key)
+					readerDT[ki] = reader.Open(kk.key, kk.typ, bed.Subscribe)
+					if len(reader.DTs) == 1 {
+						if err := reader.Register(); err != nil {
+							c.Step("register failed: %v", err)
+						}
+					}
+				}
+				if len(reader.DTs) == 0 {
+					break
+				}
+				req := reader.BuildRequest()
+				for _, p := range req.PushPullPacks {
+					p.Option |= uint32(model.PushPullBitReadOnly)
+				}
+				c.Step("reader read-only sync (%d packs)", len(req.PushPullPacks))
+				ex := reader.Send(req)
+				if ex.Out.Panic != "" {
+					return c.Violation("server-panic", "ProcessPushPull panicked on a read-only sync: %s", ex.Out.Panic)
+				}
+				if ex.Out.TimedOut {
+					if ex.Out.Hang {
+						return c.Violation("request-hang", "a read-only sync never returned\n%s", clipDump(ex.Out.Dump))
+					}
+					return c.Inconclusive("request watchdog")
+				}
+				if ex.Out.Err == nil {
+					if pm := reader.Apply(ex.Resp); pm != "" {
+						return c.Violation("client-panic", "ApplyPushPullPack panicked on a read-only response: %s", pm)
+					}
+				}
+				c.Count("readonly_reader_syncs", 1)
+				if sig, msg := check(nil); sig != "" {
+					return verdict(c, "readonly:", sig, msg)
+				}
+				// what the reader holds is the replay of the log up to its checkpoint
+				for _, d := range reader.DTs {
+					if d.DT.GetState() != model.StateOfDatatype_SUBSCRIBED {
+						continue
+					}
+					dd := w.b.Datatype(w.colNum, d.Key)
+					if dd == nil {
+						continue
+					}
+					cp := d.W.CreatePushPullPack().CheckPoint.Sseq
+					want, err := w.replayView(d.Typ, w.b.Ops(dd.DUID), cp)
+					if err == nil && cp > 0 && d.View() != want {
+						return c.Violation("readonly:reader-state", "the read-only reader of %q is at checkpoint sseq %d and reads %s, the replay of the stored log up to %d gives %s", d.Key, cp, clip(d.View(), 400), cp, clip(want, 400))
+					}
+					c.Count("readonly_reader_states_compared", 1)
+				}
+				break
+			}
+			var dts []*bed.DT
+			for _, d := range cl.DTs {
+				if d.DT.GetState() == model.StateOfDatatype_SUBSCRIBED {
+					dts = append(dts, d)
+				}
+			}
+			if len(dts) == 0 {
+				break
+			}
+			if variant == 0 {
+				if _, sig, msg := w.sync(cl); sig != "" {
+					return verdict(c, "", sig, msg)
+				}
+				if sig, msg := check(nil); sig != "" {
+					return verdict(c, "", sig, msg)
+				}
+			}
+			req := cl.BuildRequest(dts...)
+			for _, p := range req.PushPullPacks {
+				p.Option |= uint32(model.PushPullBitReadOnly)
+				p.Operations = nil // a read-only client never pushes
+			}
+			c.Step("%s pull-only sync with the read-only bit (%d packs, variant %d, response discarded)", cl.Alias, len(req.PushPullPacks), variant)
+			ex := cl.Send(req)
+			if ex.Out.Panic != "" {
+				return c.Violation("server-panic", "ProcessPushPull panicked on a read-only sync: %s", ex.Out.Panic)
+			}
+			if ex.Out.TimedOut {
+				if ex.Out.Hang {
+					return c.Violation("request-hang", "a read-only sync never returned\n%s", clipDump(ex.Out.Dump))
+				}
+				return c.Inconclusive("request watchdog")
+			}
+			c.Count("readonly_syncs_of_writers", 1)
+			if sig, msg := check(nil); sig != "" {
+				return verdict(c, "readonly:", sig, msg)
 			}
 		default:
 			// empty push: a sync right after a sync
